@@ -115,6 +115,67 @@ def run(ctx):
         if not ok:
             det.update({"issue": "helper output is not an admissible rearrangement of its input (or the input was modified)", "returned": str(r)[:300]})
             ctx.violation("oracle", det, site={"pwg": "permute_within_groups", "prows": "permute_rows", "rgroup": "randomize_group", "rstrata": "randomize_in_strata"}.get(which, which))
+    # ---- label / data buffers rewritten in place between two calls (a simulation loop over preallocated arrays): the second call must
+    #      behave as on fresh arrays with those contents (nothing may be remembered by object identity)
+    from permute import utils as _ut, stratified as _st0, ksample as _ks0
+    for _ in range(ctx.n(60, 600)):
+        n = ctx.rng.randint(4, 9)
+        g1 = [ctx.rng.choice([1, 2, 3]) for _ in range(n)]; g2 = [ctx.rng.choice([1, 2]) for _ in range(n)]
+        if g1 == g2:
+            g2[0] = 3 - g2[0] if g2[0] in (1, 2) else 1
+        xv = np.arange(n) * 1.0; seed_ = ctx.rng.randint(0, 10**6)
+        G = np.array(g1)
+        which = ctx.rng.choice(["permute_within_groups", "sim_corr", "bivariate_k_sample", "stratified_permutationtest"])
+        cond_ = np.array([0, 1] * (n // 2) + [0] * (n % 2))
+        def run_(Garr, sd):
+            if which == "permute_within_groups":
+                return _ut.permute_within_groups(xv, Garr, sd).tolist()
+            if which == "sim_corr":
+                r_ = _st0.sim_corr(xv, xv[::-1] ** 2, Garr, reps=4, seed=sd); return [np.asarray(v_, dtype=float).tolist() for v_ in r_]
+            if which == "bivariate_k_sample":
+                r_ = _ks0.bivariate_k_sample(xv, Garr, cond_, reps=4, seed=sd, keep_dist=True); return [float(r_[0]), float(r_[1]), np.asarray(r_[2]).tolist()]
+            r_ = _st0.stratified_permutationtest(Garr, cond_, xv, reps=4, seed=sd, testStatistic=lambda c_: float(np.dot(c_, xv))); return [float(r_[0]), float(r_[1]), np.asarray(r_[2]).tolist()]
+        a = guarded(run_, G, seed_)
+        G[...] = np.array(g2)                 # same object, new labels
+        b = guarded(run_, G, seed_)
+        f = guarded(run_, np.array(g2), seed_)
+        ctx.case(("relabel-in-place", which, tuple(g1), tuple(g2), seed_), True); ctx.count("labels-rewritten-in-place-" + which)
+        if a[0] != "ok" or b[0] != "ok" or f[0] != "ok" or repr(b[1]) != repr(f[1]):
+            ctx.violation("oracle", {"call": which, "first_labels": g1, "second_labels": g2, "seed": seed_,
+                                     "issue": "after the label array was rewritten in place the call differs from the same call on a fresh array with those labels (strata remembered by object identity)",
+                                     "rewritten": str(b[1:])[:200], "fresh": str(f[1:])[:200]}, site=which)
+    # ---- a user statistic that raises half-way through: the call fails, the caller's arrays are still bit-identical
+    from permute import core as _core, ksample as _ks, stratified as _st
+    for _ in range(ctx.n(60, 600)):
+        n = ctx.rng.randint(4, 9)
+        x = np.array([float(ctx.rng.randint(-5, 9)) for _ in range(n)]); y = np.array([float(ctx.rng.randint(-5, 9)) for _ in range(n)])
+        grp = np.array([ctx.rng.choice([1, 2]) for _ in range(n)]); grp[0], grp[1] = 1, 2
+        cond = np.array([0, 1] * (n // 2) + [0] * (n % 2))
+        kth = ctx.rng.randint(1, 4); state = {"k": 0}
+        def boom(*a, state=state, kth=kth):
+            state["k"] += 1
+            for arr_ in a:                       # a statistic may also scribble on what it is handed
+                if isinstance(arr_, np.ndarray) and arr_.flags.writeable and arr_.size and ctx_scribble[0]:
+                    arr_[...] = 0
+            if state["k"] >= kth:
+                raise RuntimeError("user statistic failed")
+            return 0.0
+        ctx_scribble = [False]      # (a statistic that writes into its arguments changes the caller's data by its own doing where the library
+                                    #  hands it the caller's array, e.g. x in k_sample: not demanded of the library)
+        which = ctx.rng.choice(["two_sample", "one_sample", "k_sample", "stratified_two_sample", "stratified_permutationtest", "bivariate_k_sample"])
+        snaps = [v.copy() for v in (x, y, grp, cond)]
+        seed_ = ctx.rng.choice([ctx.rng.randint(0, 10**6), np.random.RandomState(ctx.rng.randint(0, 10**6))])
+        call = {"two_sample": lambda: _core.two_sample(x, y, reps=5, stat=boom, seed=seed_, keep_dist=ctx.rng.random() < 0.5),
+                "one_sample": lambda: _core.one_sample(x, y, reps=5, stat=boom, seed=seed_),
+                "k_sample": lambda: _ks.k_sample(x, grp, reps=5, stat=boom, seed=seed_),
+                "bivariate_k_sample": lambda: _ks.bivariate_k_sample(x, grp, cond, reps=5, stat=boom, seed=seed_),
+                "stratified_two_sample": lambda: _st.stratified_two_sample(grp, cond, x, stat=boom, reps=5, seed=seed_),
+                "stratified_permutationtest": lambda: _st.stratified_permutationtest(grp, cond, x, reps=5, testStatistic=boom, seed=seed_)}[which]
+        r = guarded(call)
+        ctx.case(("error-path", which, kth, ctx_scribble[0], tuple(x.tolist())), True); ctx.count("statistic-raises-" + which)
+        if not all(np.array_equal(a_, b_) for a_, b_ in zip((x, y, grp, cond), snaps)):
+            ctx.violation("input-modified", {"call": which, "issue": "a call that ended in an exception (user statistic raised in evaluation %d%s) left the caller's arrays changed" % (kth, ", and wrote into its arguments" if ctx_scribble[0] else ""),
+                                             "before": [v.tolist() for v in snaps], "after": [v.tolist() for v in (x, y, grp, cond)], "outcome": str(r)[:120]}, site=which)
     # ---- arrays handed to statistics: admissibility oracle + caller arrays untouched over repeated calls
     for name in list(rt.FUNCS):
         fn = rt.FUNCS[name]
